@@ -10,11 +10,14 @@ VERUS = {
                     (r"clause: meta\.magic", ["C04", "C16"]),
                     (r"clause: .*sync_seqn", ["C04", "C14"]),
                 ]},
+    "v2_store_commit": {"template": "units/verus/v2_store_commit.rs.tmpl", "rlimit": 30},
 }
 
 KANI = {}
 
 PROPERTIES = {
     "C04": {"verus": ["v1_sync"], "kani": [], "level": "proof",
+            "explanation": "", "assumptions": []},
+    "C14": {"verus": ["v1_sync", "v2_store_commit"], "kani": [], "level": "proof",
             "explanation": "", "assumptions": []},
 }
